@@ -72,6 +72,7 @@ type LockInfo struct {
 	C      *CFG
 	in     map[*cfg.Block]LockState
 	Errors []LockError // releases of locks not held
+	may    bool        // union at joins instead of intersection
 }
 
 // LockError is an Unlock reached without the lock in the state.
@@ -190,10 +191,27 @@ func applyOps(st LockState, ops []lockOp, li *LockInfo, record bool) {
 	}
 }
 
+// join is the may-analysis counterpart of meet: a lock held on either path may be held.
+func join(a, b LockState) LockState {
+	o := a.clone()
+	for k, v := range b {
+		if w, ok := o[k]; !ok || v > w {
+			o[k] = v
+		}
+	}
+	return o
+}
+
+// MayLocks runs the lockset analysis as a may-analysis: HeldBefore then answers "held on some
+// path" (for rules of the form "never call X while L may be held").
+func (f *Func) MayLocks() *LockInfo { return f.locksWith(nil, true) }
+
 // LocksWithEntry runs the lockset analysis with the given state at entry.
-func (f *Func) LocksWithEntry(entry LockState) *LockInfo {
+func (f *Func) LocksWithEntry(entry LockState) *LockInfo { return f.locksWith(entry, false) }
+
+func (f *Func) locksWith(entry LockState, may bool) *LockInfo {
 	c := f.CFG()
-	li := &LockInfo{C: c, in: map[*cfg.Block]LockState{}}
+	li := &LockInfo{C: c, in: map[*cfg.Block]LockState{}, may: may}
 	if entry == nil {
 		entry = LockState{}
 	}
@@ -229,6 +247,8 @@ func (f *Func) LocksWithEntry(entry LockState) *LockInfo {
 			var nw LockState
 			if !seen {
 				nw = out
+			} else if may {
+				nw = join(old, out)
 			} else {
 				nw = meet(old, out)
 			}
@@ -266,7 +286,11 @@ func (li *LockInfo) HeldBefore(n ast.Node) LockState {
 	}
 	st := li.heldBeforeLoc(ls[0])
 	for _, l := range ls[1:] {
-		st = meet(st, li.heldBeforeLoc(l))
+		if li.may {
+			st = join(st, li.heldBeforeLoc(l))
+		} else {
+			st = meet(st, li.heldBeforeLoc(l))
+		}
 	}
 	return st
 }
